@@ -25,7 +25,7 @@ class StopAfterPay:
 def main(tier, seed, args):
     rep = Report(PID, tier, seed, 'model_checking')
     c = ctx('on')
-    rep.bounds = {'htlcs_x_block_arrivals': '1x1, 2x1' if tier == 'quick' else '1x2, 2x2, 3x1',
+    rep.bounds = {'htlcs_x_block_arrivals': '1x1, 2x1' if tier == 'quick' else '1x2, 2x2',
                   'values': 'expiries, heights, deltas fully symbolic (u32/u16)', 'outside': 'more HTLCs / more block arrivals'}
     rep.assumptions = ['heights reach the plugin through the crate\'s own update_height (run from MIR as a task); a height told may be new or stale; the budget is measured against the highest height whose processing has finished', 'node + tokio contracts',
                        '"held when the payment was initiated" = listeners registered when the lifecycle reads the table after payment_ready']
@@ -33,7 +33,8 @@ def main(tier, seed, args):
     budget = 440 if tier == 'quick' else 3000
     configs = []
     mons = lambda: [ExpiryBudget(), NoPayAfterRejection(('expiry',)), StopAfterPay(), Coverage(['pay'])]
-    shapes = [(1, 1), (2, 1)] if tier == 'quick' else [(1, 2), (2, 2), (3, 1)]
+    # (3 HTLCs x 1 height did not finish in 50 min, 730 000 paths: outside the bound)
+    shapes = [(1, 1), (2, 1)] if tier == 'quick' else [(1, 2), (2, 2)]
     import os
     if os.environ.get('VERIF_C04_SHAPES'):      # development aid: time one shape
         shapes = [tuple(int(x) for x in sh.split('x')) for sh in os.environ['VERIF_C04_SHAPES'].split(',')]
